@@ -40,7 +40,7 @@ func genCase(profile string) *rapid.Generator[Case] {
 		}
 		c.Cfg.Gates = gateSets[rapid.SampledFrom(sets).Draw(t, "gates")]
 		hot := []string{"svc.s.1", "svc.s.2", "svc.t.a.1", "svc.t.a.2", "svc.r.1", "svc.m.1", "svc.m.w.a.x", "svc.t.a.1", "svc.m.fixed", "svc.m.q.1",
-			"svc.u.book.1", "svc.u.toy.1", "svc.m.a.b", "svc.m.c.b", "svc.r.1"}
+			"svc.u.book.1", "svc.u.toy.1", "svc.m.a.b", "svc.m.c.b", "svc.r.1", "svc", "svc"}
 		genRID := rapid.OneOf(rapid.SampledFrom(hot), rapid.SampledFrom(hot), rapid.SampledFrom(allRIDs))
 		foreign := func() Op {
 			return Op{K: "foreign", Typ: rapid.SampledFrom([]string{"reset", "resetall", "token", "tokenid", "tokenreset", "event"}).Draw(t, "ftyp"), RID: rapid.SampledFrom(allRIDs[:10]).Draw(t, "rid")}
@@ -51,11 +51,16 @@ func genCase(profile string) *rapid.Generator[Case] {
 			case k < 48:
 				return Op{K: "release", Pick: rapid.IntRange(0, 7).Draw(t, "pick")}
 			case k < 62:
-				return Op{K: "with", RID: genRID.Draw(t, "rid"), QE: rapid.IntRange(0, 9).Draw(t, "qe") == 0}
+				rid := genRID.Draw(t, "rid")
+				if rapid.IntRange(0, 5).Draw(t, "withquery") == 0 {
+					// a resource id with a query part: the group is that of the resource name
+					rid = rapid.SampledFrom([]string{"svc.r.1?q=1", "svc.s.1?x=y", "svc.t.a.1?", "svc.r.1?id=2"}).Draw(t, "qrid")
+				}
+				return Op{K: "with", RID: rid, QE: rapid.IntRange(0, 9).Draw(t, "qe") == 0}
 			case k < 74:
 				return Op{K: "deliver", RID: genRID.Draw(t, "rid"), Typ: rapid.SampledFrom([]string{"get", "call", "access", "auth"}).Draw(t, "typ"), QE: rapid.IntRange(0, 9).Draw(t, "qe") == 0}
 			case k < 79:
-				return Op{K: "withres", RID: rapid.SampledFrom(hot).Draw(t, "rid")}
+				return Op{K: "withres", RID: rapid.SampledFrom(hot).Draw(t, "rid"), Pick: rapid.IntRange(0, 1).Draw(t, "reqobj")}
 			case k < 84:
 				return Op{K: "withgroup", G: rapid.SampledFrom([]string{"shared", "svc.r.1", "tg.a", "mm.1", "other", ""}).Draw(t, "g")}
 			case k < 87:
